@@ -12,7 +12,9 @@ import GocoinV.Proofs.C10Keys
 import GocoinV.Proofs.C10Prime
 import GocoinV.Proofs.C10Undo
 import GocoinV.Proofs.C10Load
+import GocoinV.Proofs.C10Shared
 import GocoinV.Gen.UtxoLoaderFacts
+import GocoinV.Gen.UtxoSharedFacts
 namespace GocoinV.Props.C10
 open GocoinV GocoinV.UtxoRec GocoinV.ScriptCompress GocoinV.CompactSize
 
@@ -404,5 +406,90 @@ theorem load_retry_needs_rewind_counterexample :
       (some ((snapEncode ⟨false, 2, List.replicate 32 2, [[0xb1], [0xb2]]⟩).take 51))
       (some (snapEncode ⟨false, 1, List.replicate 32 1, [[0xa1]]⟩)) false).snap.recs = [[0xb1], [0xa1]] := by
   decide +kernel
+
+/-! ## records on their way through shared state (Model/UtxoShared.lean; the facts are regenerated from the source) -/
+
+/-- **static_decode_eq_fresh.** The pooled decoders (`NewUtxoRecStatic`, `NewUtxoRecStaticU`: one package-level record,
+    one shared slot list, one shared pool of outputs), with `OutsList` clearing what the current source clears
+    (`Gen.UtxoSharedFacts.poolClear`): whatever the pool holds from the records decoded before — any contents, any
+    length, any cursor — a history of records, plain and compressed in any order, decodes to exactly what the allocating
+    decoder `NewUtxoRec` returns for each of them. -/
+theorem static_decode_eq_fresh (K : KeyOps) (p : Pool) (l : List (Bool × Bytes)) :
+    staticHistory Gen.UtxoSharedFacts.poolClear K p l = freshHistory K l :=
+  staticHistory_eq_fresh _ (by decide) K l p
+
+/-- with the round trip: a serialised well-formed record comes back unchanged from the pooled decoder, whatever was
+    decoded before (plain format; `static_record_roundtripC` is the compressed one) -/
+theorem static_record_roundtripU (p : Pool) (r : Rec) (h : WFRec r) (b : Bytes) (hs : serializeU r = some b) :
+    (newRecStaticU Gen.UtxoSharedFacts.poolClear p b).1 = .ok r := by
+  rw [newRecStaticU_fst _ (by decide)]
+  exact newRecU_serializeU r h b hs
+
+/-- static_record_roundtripU / C: the hypotheses hold for the sparse coinbase record `exRec`, and the pool may be dirty:
+    slots 0, 2 and 3 still hold outputs of an earlier record -/
+example : ∃ (p : Pool) (b : Bytes), WFRec exRec ∧ serializeU exRec = some b ∧ p.slots.any Option.isSome = true ∧
+    (newRecStaticU Gen.UtxoSharedFacts.poolClear p b).1 = .ok exRec :=
+  ⟨⟨[some ⟨1, [1]⟩, none, some ⟨2, [2]⟩, some ⟨3, []⟩, none], 3⟩, _,
+    ⟨by decide, by decide, by decide, wfOuts_of_all _ (by decide)⟩, rfl, by decide, by decide +kernel⟩
+
+theorem static_record_roundtripC (K : KeyOps) (hK : K.Sound) (p : Pool) (r : Rec) (h : WFRecC r) (b : Bytes)
+    (hs : serializeC K r = some b) : (newRecStaticC Gen.UtxoSharedFacts.poolClear K p b).1 = .ok r := by
+  rw [newRecStaticC_fst _ (by decide)]
+  exact newRecC_serializeC K hK r h b hs
+
+/-- **static_decode_cursor_clear_counterexample.** Clearing only as many slots as the previous record had unspent
+    outputs (the pool cursor) is not enough: from a fresh pool, a record of 10 outputs of which only #7 is left, then a
+    record of 10 outputs of which only #0 is left — the second comes back with output #7 unspent as well. -/
+theorem static_decode_cursor_clear_counterexample :
+    ∃ (a b : Rec) (ba bb : Bytes), WFRec a ∧ WFRec b ∧ serializeU a = some ba ∧ serializeU b = some bb ∧
+      staticHistory ⟨false, true⟩ kG (Pool.fresh 16) [(false, ba), (false, bb)] ≠ [.ok a, .ok b] ∧
+      freshHistory kG [(false, ba), (false, bb)] = [.ok a, .ok b] := by
+  refine ⟨⟨List.replicate 32 0xaa, 100, false, (List.replicate 10 none).set 7 (some ⟨5000, [0x51]⟩)⟩,
+    ⟨List.replicate 32 0xbb, 101, false, (List.replicate 10 none).set 0 (some ⟨7000, [0x52]⟩)⟩, _, _, ?_, ?_, rfl, rfl, ?_, ?_⟩
+  · exact ⟨by decide, by decide, by decide, wfOuts_of_all _ (by decide)⟩
+  · exact ⟨by decide, by decide, by decide, wfOuts_of_all _ (by decide)⟩
+  · decide +kernel
+  · decide +kernel
+
+/-- **read_vlen_any_chunking.** `btc.ReadVLen` as the current source reads (`Gen.UtxoSharedFacts.readShape`), from a
+    reader whose every `Read` may stop after any number of bytes ≥ 1 (`caps` arbitrary — every position of the length
+    prefix relative to the refills of a read-ahead buffer): it returns the value `ReadVLen` returns on the unread rest of
+    the file and leaves the reader right after the prefix, or both fail. -/
+theorem read_vlen_any_chunking (data : Bytes) (caps : List Nat) :
+    (readVLen data = none ∧ readVLenRd Gen.UtxoSharedFacts.readShape ⟨data, caps⟩ = none) ∨
+      (∃ v rest caps', readVLen data = some (v, rest) ∧
+        readVLenRd Gen.UtxoSharedFacts.readShape ⟨data, caps⟩ = some (v, ⟨rest, caps'⟩)) :=
+  readVLenRd_spec _ (by decide) ⟨data, caps⟩
+
+/-- **records_any_chunking.** The record loop of `NewUnspentDb` (length prefix through `ReadVLen`, record through the
+    read the source uses) on such a reader: for every file contents, every record count and EVERY way of cutting the file
+    into reads it yields exactly the records the framing model `decRecs` (the one `snapshot_roundtrip` and
+    `load_fallback_exact` are about) finds in the file — or fails exactly when that fails. -/
+theorem records_any_chunking (n : Nat) (data : Bytes) (caps : List Nat) :
+    decRecsRd Gen.UtxoSharedFacts.readShape n ⟨data, caps⟩ = decRecs n data :=
+  decRecsRd_eq _ (by decide) (by decide) n ⟨data, caps⟩
+
+/-- **read_vlen_short_read_counterexample.** With a plain `Read` for the length bytes the value depends on the chunking:
+    the prefix fd 2c 01 (300) followed by a record, served as marker | one byte | rest, is read as 44. -/
+theorem read_vlen_short_read_counterexample :
+    (readVLenRd ⟨true, false, true⟩ ⟨[0xfd, 0x2c, 0x01, 7, 7, 7], [0, 0]⟩).map Prod.fst = some 44 ∧
+      (readVLen [0xfd, 0x2c, 0x01, 7, 7, 7]).map Prod.fst = some 300 := by
+  decide
+
+/-- **undo_entry_survives_commit.** The undo entry `commitTxs` makes for a spent output (its script is `len` bytes at
+    `off` of the stored record in heap cell `cell`), made as the current source makes it
+    (`Gen.UtxoSharedFacts.undoOwnsScript`): whatever `db.commit()` and the allocator do to the cells of the UTXO heap
+    before the undo file is written — free, poison, reuse for another record, any number of times — the entry still reads
+    as the script that was stored. -/
+theorem undo_entry_survives_commit (h : Heap) (evs : List HeapEv) (cell off len : Nat) :
+    (undoEntry Gen.UtxoSharedFacts.undoOwnsScript h cell off len).read (evs.foldl HeapEv.apply h) =
+      ((h cell).drop off).take len :=
+  undoEntry_owned h evs cell off len
+
+/-- **undo_entry_alias_counterexample.** An entry that keeps the slice `UnspentGet` returned reads another record's
+    bytes once the cell has been freed and reused. -/
+theorem undo_entry_alias_counterexample :
+    ∃ (h : Heap) (e : HeapEv), (undoEntry false h 0 1 2).read (e.apply h) ≠ ((h 0).drop 1).take 2 :=
+  ⟨fun _ => [1, 2, 3], ⟨0, [9, 9, 9]⟩, by decide⟩
 
 end GocoinV.Props.C10
